@@ -28,6 +28,14 @@ fn meta(_ctx: &Ctx) -> Meta {
 pub fn judge_pkg(pkg: &Package) -> Result<(u64, u32), (String, String)> {
     let mut out = Vec::new();
     pkg.write(&mut out).map_err(|e| ("write-fails".to_string(), e.to_string()))?;
+    // the offsets describe what ANY writer receives, not only a Vec
+    for max in [7usize, 4096] {
+        let mut pw = crate::util::PlainWriter { out: Vec::new(), max };
+        pkg.write(&mut pw).map_err(|e| ("write-fails".to_string(), e.to_string()))?;
+        if pw.out != out {
+            return Err(("written-bytes-depend-on-the-writer".into(), format!("a plain writer taking {max} bytes per call receives {} bytes, a Vec {}", pw.out.len(), out.len())));
+        }
+    }
     let o = pkg.metadata.get_package_segment_offsets();
     let p = walk_package(&out).map_err(|e| ("written-bytes-do-not-walk".to_string(), e))?;
     let want = (0u64, 96u64, p.hdr.start as u64, p.payload_start as u64);
@@ -135,6 +143,25 @@ fn run(ctx: &Ctx, rep: &Report) {
             Ok(Ok(p)) => observe(rep, &mut local, "slack-sweep", &p, json!({"input_hex": hex::encode(b)})),
             Ok(Err(_)) => *local.entry("rejected.slack-sweep".into()).or_insert(0) += 1,
             Err(_) => *local.entry("panicked.slack-sweep(judged by C04)".into()).or_insert(0) += 1,
+        }
+    }
+    // lead fields that might steer the layout: signature type, lead type, major/minor version
+    for st in [0u16, 1, 5, 6, 0xffff] {
+        for (s_store, n) in [(0usize, 0usize), (5, 2), (16, 1)] {
+            let mut b = residue_package(s_store, n);
+            b[78..80].copy_from_slice(&st.to_be_bytes());
+            for ty in [0u16, 1, 2] {
+                b[6..8].copy_from_slice(&ty.to_be_bytes());
+                for major in [3u8, 4, 0] {
+                    b[4] = major;
+                    rep.eval(1);
+                    match guard(|| Package::parse(&mut &b[..])) {
+                        Ok(Ok(p)) => observe(rep, &mut local, "lead-fields", &p, json!({"input_hex": hex::encode(&b)})),
+                        Ok(Err(_)) => *local.entry("rejected.lead-fields".into()).or_insert(0) += 1,
+                        Err(_) => *local.entry("panicked.lead-fields(judged by C04)".into()).or_insert(0) += 1,
+                    }
+                }
+            }
         }
     }
     // the last string of the last entry runs to the end of the data section without a terminator
